@@ -117,7 +117,7 @@ func ViewOf(w *world.World, op int) View {
 			v.GenParties = append(v.GenParties, a.Gen.Party)
 		case world.ArgNilOpt:
 			v.HasNilOpt = true
-		case world.ArgNonFunc:
+		case world.ArgNonFunc, world.ArgNilConv:
 			v.HasBadConv = true
 		case world.ArgFilterIn:
 			aa := a
